@@ -18,6 +18,7 @@
 #include "ops.h"
 
 namespace vf {
+void RunRpcCalls(const std::string& iface, const Json& calls, JsonOut& o);
 namespace {
 
 struct TlTable {
@@ -82,6 +83,14 @@ void RunCodec(int t, int k, std::string* extra) {
   }
 }
 
+// One RPC connection owned by the calling thread (its own pipes, bindings and handler objects).
+void RunRpcStep(const Json& opj, std::string* extra) {
+  JsonOut o;
+  o.kv_str("iface", opj.at("iface").s);
+  RunRpcCalls(opj.at("iface").s, opj.at("calls"), o);
+  *extra = o.s;
+}
+
 void EmitStep(const Step& s, JsonOut& o) {
   o.begin_obj();
   o.kv_num("t", s.t);
@@ -115,6 +124,7 @@ void CmdTl(const Json& cmd, JsonOut& o) {
           const Json& opj = sched.a[turn];
           Step s{t, opj.at("op").s, static_cast<int>(opj.at("slot").num()), static_cast<int>(opj.at("val").num()), -1, ""};
           if (s.op == "codec") RunCodec(t, static_cast<int>(turn), &s.extra);
+          else if (s.op == "rpc") RunRpcStep(opj, &s.extra);
           else s.obs = RunTl(s.op, s.slot, s.val);
           log.push_back(s);
           turn++;
@@ -140,6 +150,7 @@ void CmdTl(const Json& cmd, JsonOut& o) {
         for (auto& opj : prog.a) {
           Step s{t, opj.at("op").s, static_cast<int>(opj.at("slot").num()), static_cast<int>(opj.at("val").num()), -1, ""};
           if (s.op == "codec") RunCodec(t, k, &s.extra);
+          else if (s.op == "rpc") RunRpcStep(opj, &s.extra);
           else s.obs = RunTl(s.op, s.slot, s.val);
           logs[static_cast<size_t>(t)].push_back(s);
           k++;
